@@ -75,8 +75,8 @@ Definition k_user : kbytes := [116;117;110;110;111;120;58;117;115;101;114;58;49]
 Definition k_cmap : kbytes := [116;117;110;110;111;120;58;99;108;105;101;110;116;95;109;97;112;112;105;110;103;115;58;49]%N. (* tunnox:client_mappings:1 *)
 Definition k_temp : kbytes := [116;117;110;110;111;120;58;116;101;109;112;58;49]%N.                      (* tunnox:temp:1 *)
 (* cfg_local / cfg_shared / cfg_pinned: the code WITHOUT the key-lock repairs (fixes/C14-writeback-key-lock.diff and the three that follow it) *)
-Definition cfg_local : cfg := {| has_shared := false; en_pers := true; fix_incr := true; fix_setnx := true; fix_wb := false; fix_list := false; fix_cwf := false; fix_cre := false |}.
-Definition cfg_pinned : cfg := {| has_shared := true; en_pers := true; fix_incr := false; fix_setnx := false; fix_wb := false; fix_list := false; fix_cwf := false; fix_cre := false |}.
+Definition cfg_local : cfg := {| has_shared := false; en_pers := true; fix_incr := true; fix_setnx := true; fix_wb := false; fix_list := false; fix_cwf := false; fix_cre := false; exp_locked := true |}.
+Definition cfg_pinned : cfg := {| has_shared := true; en_pers := true; fix_incr := false; fix_setnx := false; fix_wb := false; fix_list := false; fix_cwf := false; fix_cre := false; exp_locked := true |}.
 Definition w_cold : world := tset (init_world empty_store empty_store empty_store) TPers k_user (Some (VStr 1)).
 
 Lemma witness_keys : category GenTables k_user = CPersistent /\ category GenTables k_cmap = CSharedPersistent /\ category GenTables k_temp = CRuntime.
@@ -162,7 +162,7 @@ Definition seq_inits (c : cfg) (k : kbytes) : list world :=
   let e := init_world empty_store empty_store empty_store in
   let ct := cache_tier_for_key GenTables c k in
   [e; tset e TPers k (Some (VList [7%N])); tset (tset e TPers k (Some (VStr 9))) ct k (Some (VStr 9))].
-Definition cfg_shared : cfg := {| has_shared := true; en_pers := true; fix_incr := true; fix_setnx := true; fix_wb := false; fix_list := false; fix_cwf := false; fix_cre := false |}.
+Definition cfg_shared : cfg := {| has_shared := true; en_pers := true; fix_incr := true; fix_setnx := true; fix_wb := false; fix_list := false; fix_cwf := false; fix_cre := false; exp_locked := true |}.
 
 Definition kv_alphabet (k : kbytes) : list op := [OSet k (VStr 1); OSet k (VList [5%N]); OGet k; ODel k; OExists k].
 Definition all_cases : list (cfg * kbytes) := [(cfg_local, k_user); (cfg_shared, k_cmap); (cfg_local, k_cmap); (cfg_shared, k_user)].
@@ -253,7 +253,7 @@ Proof. vm_compute. reflexivity. Qed.
 
 (* ==== the repaired code (all of fixes/C14-writeback-key-lock, -list-rmw-key-lock, -failed-cache-write-invalidate, -cache-read-error) ==== *)
 Definition cfg_rep (sh pe : bool) : cfg :=
-  {| has_shared := sh; en_pers := pe; fix_incr := true; fix_setnx := true; fix_wb := true; fix_list := true; fix_cwf := true; fix_cre := true |}.
+  {| has_shared := sh; en_pers := pe; fix_incr := true; fix_setnx := true; fix_wb := true; fix_list := true; fix_cwf := true; fix_cre := true; exp_locked := true |}.
 Definition all_cases_r : list (cfg * kbytes) := [(cfg_rep false true, k_user); (cfg_rep true true, k_cmap); (cfg_rep false true, k_cmap); (cfg_rep true true, k_user)].
 
 (* sequential behaviour, small scope, repaired code: now ALSO from the cold-cache state with list operations *)
